@@ -551,6 +551,49 @@ def r8_structure_assumption(ctx):
     ctx.check(n >= 1, "FreqDirect.fsolve: the coupled arm solves H d = F once per frequency", fn, n, nontrivial=False)
 
 
+def r9_conjugate_set_guards(ctx):
+    """The coupled frequency response sums over the FULL set of complex modes; the time-domain recurrence keeps one mode of each conjugate pair.
+    SolveUnc._addconj restores the full set before a frequency solve, _delconj reduces it before a time solve.  The two guards must split the
+    possible states into exactly two classes: `_delconj` acts when the set is full (an equality between two sizes), `_addconj` must act in every
+    other state - its guard has to be the negation of that very equality (`!=`, or the strict inequality the size invariant allows) between the
+    same two quantities.  Otherwise a half set of intermediate size (a mix of real roots and complex pairs) is left unexpanded."""
+    from .sem import Sem, unfn
+    fa = ctx.src.func(O.UNC, "SolveUnc._addconj")
+    fd = ctx.src.func(O.UNC, "SolveUnc._delconj")
+
+    def guard(fn, callee):
+        for n in walk_no_nested(fn):
+            if isinstance(n, ast.If) and any(isinstance(c, ast.Call) and dotted(c.func) == callee for b in n.body for c in ast.walk(b)):
+                return n
+        raise AnchorError(f"{fn.name}: guard of the call to {callee}")
+
+    ga, gd = guard(fa, "addconj"), guard(fd, "delconj")
+    Sa, Sd = Sem(ctx, fa, run=False), Sem(ctx, fd, run=False)
+    for S, fn, g in ((Sa, fa, ga), (Sd, fd, gd)):
+        for st in fn.body:
+            if st is g:
+                break
+            S.ev.stmt(st)
+    va, vd = Sa.ev.ev(ga.test), Sd.ev.ev(gd.test)
+    ua, ud = unfn(va), unfn(vd)
+    if ua is None or ud is None or not ua[0].startswith("cmp:") or not ud[0].startswith("cmp:"):
+        ctx.error("_addconj / _delconj: guards are single comparisons", ga, [repr(va), repr(vd)])
+        return
+    ok = ud[0] == "cmp:Eq"
+    ctx.check(ok, "_delconj: acts exactly when the stored set is the full set (an equality of two sizes)", gd, ud[0])
+    if not ok:
+        return
+    X, Y = ud[1]
+    opa, (P, Q) = ua[0], ua[1]
+    same_pair = (P.equals(X) and Q.equals(Y)) or (P.equals(Y) and Q.equals(X))
+    ok = same_pair and opa in ("cmp:NotEq", "cmp:Gt", "cmp:Lt")
+    ctx.check(ok, "_addconj: acts in every state in which _delconj does not - its guard negates _delconj's equality between the same two sizes", ga,
+              None if ok else {"_addconj": repr(va), "_delconj": repr(vd),
+                               "consequence": "a half set whose size is neither of the two tested values (real roots mixed with complex pairs) is not expanded: "
+                                              "fsolve sums over half of the conjugate pairs"},
+              key="C02-R9|SolveUnc._addconj|guard is not the negation of _delconj's")
+
+
 RULES = [
     ("C02-R6", r6_paired_advanced_indices, 2),
     ("C02-R1", r1_dynamic_stiffness, 8),
@@ -560,6 +603,7 @@ RULES = [
     ("C02-R5", r5_solvepsd, 9),
     ("C02-R7", r7_every_force_counts, 2),
     ("C02-R8", r8_structure_assumption, 2),
+    ("C02-R9", r9_conjugate_set_guards, 2),
 ]
 LEVEL = "other"
 EXPLANATION = ("Static: every frequency-domain path divides by the same dynamic stiffness i W b + k - W^2 m (exact normal forms), derives v and a "
@@ -572,7 +616,8 @@ MANIFEST = {
             "(R2) v = i W d, a = -W^2 d on each partition, rigid-body v = a/(iW), d = -a/W^2 masked at W = 0; (R3) incrb / rf_disp_only gating by dominance; "
             "(R4) partition-space typing of the frequency functions in both SolveUnc modes; (R5) solvepsd formula and trapezoid; (R6) paired advanced indices; (R7) every force reaches the PSD accumulation (must-pass-through in the "
             "force loop: only a vanishing force PSD may skip an iteration, because the direct term drmf[:, i] bypasses the equations); (R8) a structure "
-            "assumption handed to the solver of the dynamic stiffness must be derived from every matrix of H. "
+            "assumption handed to the solver of the dynamic stiffness must be derived from every matrix of H; (R9) the guards of SolveUnc._addconj / _delconj are complementary (the full conjugate set is restored "
+            "before every frequency solve unless it is already full). "
             "Not decided: accuracy of the complex-mode path, singular H, library solves.",
     "note": "Trusted: CPython ast; verifier/e2_formula.py (commutative normal forms: matrix products are abstracted to scalar products), verifier/e3_spaces.py "
             "with the attribute table of verifier/ode_spaces.py (read from _BaseODE, one reason per line).",
